@@ -1,1 +1,183 @@
-pub mod channel { pub use simrt::channel::*; }
+//! Stand-in for the parts of `crossbeam` a (changed) rs-store tree may use, on top of the simulator.
+pub mod channel {
+    pub use simrt::channel::*;
+}
+
+/// Non-blocking queues: a simulated mutex around a VecDeque (every operation is a scheduling point).
+pub mod queue {
+    use simrt::sync::Mutex;
+    use std::collections::VecDeque;
+
+    pub struct ArrayQueue<T> {
+        q: Mutex<VecDeque<T>>,
+        cap: usize,
+    }
+
+    impl<T> ArrayQueue<T> {
+        pub fn new(cap: usize) -> ArrayQueue<T> {
+            assert!(cap > 0, "capacity must be non-zero");
+            ArrayQueue { q: Mutex::new(VecDeque::with_capacity(cap)), cap }
+        }
+        pub fn push(&self, value: T) -> Result<(), T> {
+            let mut q = self.q.lock().unwrap();
+            if q.len() >= self.cap {
+                return Err(value);
+            }
+            q.push_back(value);
+            Ok(())
+        }
+        pub fn force_push(&self, value: T) -> Option<T> {
+            let mut q = self.q.lock().unwrap();
+            let old = if q.len() >= self.cap { q.pop_front() } else { None };
+            q.push_back(value);
+            old
+        }
+        pub fn pop(&self) -> Option<T> {
+            self.q.lock().unwrap().pop_front()
+        }
+        pub fn capacity(&self) -> usize {
+            self.cap
+        }
+        pub fn is_empty(&self) -> bool {
+            self.q.lock().unwrap().is_empty()
+        }
+        pub fn is_full(&self) -> bool {
+            self.q.lock().unwrap().len() >= self.cap
+        }
+        pub fn len(&self) -> usize {
+            self.q.lock().unwrap().len()
+        }
+    }
+
+    pub struct SegQueue<T> {
+        q: Mutex<VecDeque<T>>,
+    }
+
+    impl<T> SegQueue<T> {
+        pub fn new() -> SegQueue<T> {
+            SegQueue { q: Mutex::new(VecDeque::new()) }
+        }
+        pub fn push(&self, value: T) {
+            self.q.lock().unwrap().push_back(value);
+        }
+        pub fn pop(&self) -> Option<T> {
+            self.q.lock().unwrap().pop_front()
+        }
+        pub fn is_empty(&self) -> bool {
+            self.q.lock().unwrap().is_empty()
+        }
+        pub fn len(&self) -> usize {
+            self.q.lock().unwrap().len()
+        }
+    }
+
+    impl<T> Default for SegQueue<T> {
+        fn default() -> Self {
+            SegQueue::new()
+        }
+    }
+}
+
+pub mod utils {
+    use std::ops::{Deref, DerefMut};
+
+    #[derive(Clone, Copy, Default, Hash, PartialEq, Eq, Debug)]
+    pub struct CachePadded<T>(T);
+
+    impl<T> CachePadded<T> {
+        pub const fn new(t: T) -> CachePadded<T> {
+            CachePadded(t)
+        }
+        pub fn into_inner(self) -> T {
+            self.0
+        }
+    }
+    impl<T> Deref for CachePadded<T> {
+        type Target = T;
+        fn deref(&self) -> &T {
+            &self.0
+        }
+    }
+    impl<T> DerefMut for CachePadded<T> {
+        fn deref_mut(&mut self) -> &mut T {
+            &mut self.0
+        }
+    }
+    impl<T> From<T> for CachePadded<T> {
+        fn from(t: T) -> Self {
+            CachePadded(t)
+        }
+    }
+
+    /// spin/snooze become scheduling points
+    #[derive(Default, Debug)]
+    pub struct Backoff {
+        step: std::cell::Cell<u32>,
+    }
+
+    impl Backoff {
+        pub fn new() -> Backoff {
+            Backoff::default()
+        }
+        pub fn reset(&self) {
+            self.step.set(0)
+        }
+        pub fn spin(&self) {
+            self.step.set(self.step.get().saturating_add(1));
+            simrt::thread::yield_now();
+        }
+        pub fn snooze(&self) {
+            self.step.set(self.step.get().saturating_add(1));
+            simrt::thread::yield_now();
+        }
+        pub fn is_completed(&self) -> bool {
+            self.step.get() > 10
+        }
+    }
+}
+
+pub mod sync {
+    use simrt::sync::{Arc, Condvar, Mutex};
+
+    /// crossbeam::sync::WaitGroup
+    pub struct WaitGroup {
+        inner: Arc<(Mutex<usize>, Condvar)>,
+    }
+
+    impl WaitGroup {
+        pub fn new() -> WaitGroup {
+            WaitGroup { inner: Arc::new((Mutex::new(1), Condvar::new())) }
+        }
+        pub fn wait(self) {
+            let inner = self.inner.clone();
+            drop(self);
+            let mut n = inner.0.lock().unwrap();
+            while *n > 0 {
+                n = inner.1.wait(n).unwrap();
+            }
+        }
+    }
+
+    impl Default for WaitGroup {
+        fn default() -> Self {
+            WaitGroup::new()
+        }
+    }
+
+    impl Clone for WaitGroup {
+        fn clone(&self) -> WaitGroup {
+            *self.inner.0.lock().unwrap() += 1;
+            WaitGroup { inner: self.inner.clone() }
+        }
+    }
+
+    impl Drop for WaitGroup {
+        fn drop(&mut self) {
+            let mut n = self.inner.0.lock().unwrap();
+            *n -= 1;
+            if *n == 0 {
+                self.inner.1.notify_all();
+            }
+        }
+    }
+}
